@@ -72,7 +72,7 @@ class Ctx:
         self.pc.append(t if val else z3.Not(t))
         return val
 
-    def require(self, fm, label, timeout_ms=4000):
+    def require(self, fm, label, timeout_ms=8000):
         """An obligation that must hold here (callee precondition, definedness, dimension check)."""
         fm = z3.simplify(fm) if not isinstance(fm, bool) else z3.BoolVal(fm)
         if z3.is_true(fm):
@@ -375,12 +375,35 @@ class SScal:
     def __neg__(self):
         return SScal(-self.re, -self.im, self.dtype)
 
+    def _atoms(self):
+        return list(self.factors) if getattr(self, "factors", None) else [self]
+
+    def _is_one(self):
+        return z3.eq(self.re, z3.RealVal(1)) and self.is_real()
+
     def __mul__(self, o):
         if isinstance(o, (AMat, BCol, BRow)) or hasattr(o, "_matmat"):
             return NotImplemented
         o = SScal.lift(o)
-        re, im = alg.cmul(self.re, self.im, o.re, o.im)
-        return SScal(re, im, self.dtype or o.dtype)
+        # products are kept as flat factor lists and folded to the right, so that ((a*b)*c) and a*(b*c) are the same
+        # term (multiplication in C is associative); the order of the factors is preserved
+        atoms = [f for f in self._atoms() + o._atoms() if not f._is_one()]
+        dt = self.dtype or o.dtype
+        if not atoms:
+            return SScal(z3.RealVal(1), z3.RealVal(0), dt)
+        re, im = atoms[-1].re, atoms[-1].im
+        for f in reversed(atoms[:-1]):
+            re, im = alg.cmul(f.re, f.im, re, im)
+        r = SScal(re, im, dt)
+        r.factors = atoms if len(atoms) > 1 else None
+        # remember "value * integer" so that a later division by one of the integer's factors cancels exactly
+        if o.integral is not None and self.integral is None:
+            r._scaled = (self, o.integral)
+        elif self.integral is not None and o.integral is None:
+            r._scaled = (o, self.integral)
+        elif self.integral is not None and o.integral is not None:
+            r.integral = self.integral * o.integral
+        return r
 
     def __rmul__(self, o):
         return SScal.lift(o).__mul__(self)
@@ -388,18 +411,26 @@ class SScal:
     def recip(self):
         CTX.require(z3.Or(self.re != 0, self.im != 0), "division by a non-zero scalar")
         if self.is_real():
-            return SScal(1 / self.re, z3.RealVal(0), self.dtype)
-        den = self.re * self.re + self.im * self.im
-        return SScal(self.re / den, -self.im / den, self.dtype)
+            return SScal(alg.rdiv(z3.RealVal(1), self.re), z3.RealVal(0), self.dtype)
+        den = alg.rmul(self.re, self.re) + alg.rmul(self.im, self.im)
+        return SScal(alg.rdiv(self.re, den), -alg.rdiv(self.im, den), self.dtype)
 
     def __truediv__(self, o):
         if isinstance(o, AMat):
             return NotImplemented
         o = SScal.lift(o)
+        sc = getattr(self, "_scaled", None)
+        if sc is not None and o.integral is not None:
+            base, k = sc
+            q = k / o.integral          # SInt.__truediv__: exact cancellation of a tracked factor when possible
+            if isinstance(q, SScal) and q.integral is not None:
+                return base * q
+        if self.integral is not None and o.integral is not None:
+            return self.integral / o.integral
         return self * o.recip()
 
     def __rtruediv__(self, o):
-        return SScal.lift(o) * self.recip()
+        return SScal.lift(o) / self
 
     def __pow__(self, o):
         if _is_int(o) and 0 <= int(o) <= 3:
@@ -410,9 +441,10 @@ class SScal:
         if isinstance(o, (float, np.floating)) and float(o) == int(o) and 0 <= int(o) <= 3:
             return self ** int(o)
         e = SScal.lift(o)
-        if not e.is_real():
-            raise Unsupported("complex exponent")
-        return SScal(alg.cpow_re(self.re, self.im, e.re), alg.cpow_im(self.re, self.im, e.re), self.dtype)
+        if e.integral is None:
+            raise Unsupported("power with an exponent not known to be an integer")
+        k = e.integral.term
+        return SScal(alg.cpow_re(self.re, self.im, k), alg.cpow_im(self.re, self.im, k), self.dtype)
 
     def conj(self):
         return SScal(self.re, -self.im, self.dtype)
